@@ -244,11 +244,23 @@ def run_graph(ctx, gd, rng, K):
     for D in sorted(ref.subgraph(A).districts(), key=lambda d: sorted(map(str, d))):
         kernel.LOG.reset_case({"graph": gd, "A": [v.name for v in Al], "district": sorted(v.name for v in D),
                                "topo": [v.name for v in topo], "form": "cfactor"})
-        try:
-            compute_c_factor(district=[v for v in topo if v in D], subgraph_variables=Al, subgraph_probability=P(Al),
-                             graph_topo=topo)
-        except Exception as e:  # noqa: BLE001
-            kernel.violation(PROP, "total", f"compute_c_factor raised {type(e).__name__}: {e}", case=kernel.LOG.case)
+        # Q[A] of an ancestral set A is P(A): as a plain probability (Lemma 1), as a sum over the rest of the joint,
+        # and as a chain-rule product (both Lemma 4)
+        from y0.dsl import Product, Sum
+
+        forms = {"plain": P(Al)}
+        rest = [v for v in topo if v not in A]
+        if rest:
+            forms["sum"] = Sum.safe(P(topo), rest)
+        if len(Al) >= 2:
+            forms["product"] = Product.safe(P(Al[i] | Al[:i]) if i else P(Al[0]) for i in range(len(Al)))
+        for fname, qa in forms.items():
+            kernel.LOG.case["qa_form"] = fname
+            try:
+                compute_c_factor(district=[v for v in topo if v in D], subgraph_variables=Al, subgraph_probability=qa,
+                                 graph_topo=topo)
+            except Exception as e:  # noqa: BLE001
+                kernel.violation(PROP, "total", f"compute_c_factor raised {type(e).__name__}: {e}", case=dict(kernel.LOG.case))
     CTX["ref"] = None
 
 
@@ -281,8 +293,17 @@ def replay(case):
     kernel.LOG.reset_case(case)
     if case.get("form") == "cfactor":
         Al = [Variable(n) for n in case["A"]]
+        from y0.dsl import Product, Sum
+
+        form = case.get("qa_form", "plain")
+        rest = [v for v in topo if v not in Al]
+        qa = P(Al)
+        if form == "sum" and rest:
+            qa = Sum.safe(P(topo), rest)
+        elif form == "product" and len(Al) >= 2:
+            qa = Product.safe(P(Al[i] | Al[:i]) if i else P(Al[0]) for i in range(len(Al)))
         compute_c_factor(district=[v for v in topo if v.name in case["district"]], subgraph_variables=Al,
-                         subgraph_probability=P(Al), graph_topo=topo)
+                         subgraph_probability=qa, graph_topo=topo)
         return
     T = frozenset(Variable(n) for n in case["T"])
     C = frozenset(Variable(n) for n in case["C"])
